@@ -18,8 +18,8 @@ from mc.loadcase import eqv, show
 
 PROPERTY = 'C05'
 RULE = ('choice tree: position/model x value; each leaf is dumped with the real dumps function and the text is loaded '
-        'with the real load function of the same model; non-trivial = values whose dump needs quoting, a non-plain style, '
-        'an anchor or a sweetener (text differs from the plain str() of the payload) plus all structured values')
+        'with the real load function of the same model; non-trivial = strings that as plain scalars would resolve to another type, '
+        'are empty, have outer blanks or contain YAML syntax, non-printable or non-ASCII characters, plus all structured values')
 ASSUMPTIONS = [
     'values are unambiguous under the documented recognition rules (the catalogue avoids ambiguous unions)',
     'strings are valid Unicode without lone surrogates (YAML cannot carry them)',
@@ -72,6 +72,16 @@ def roundtrip(case, dumps, v, res, fam, desc):
     return text
 
 
+def needs_care(case, s):
+    """a string the dumper cannot write as a plain scalar and get back: it resolves to another type, is empty, has
+    leading/trailing blanks, or contains YAML syntax / non-printable / non-ASCII characters"""
+    if s == '' or s != s.strip():
+        return True
+    if case.inst.resolve(yaml.ScalarNode, s, (True, False)) != 'tag:yaml.org,2002:str':
+        return True
+    return any(c in ":#[]{},&*!|>'\"%@`?-\n\t\\" or not c.isprintable() or ord(c) > 126 for c in s)
+
+
 _CASES = {}
 
 
@@ -110,7 +120,7 @@ def run_unit(unit, tier):
                 res.hist['value-not-constructible'] += 1
                 continue
             text = roundtrip(case, dumps, v, res, 'str@' + pos, {'position': pos, 'string': s})
-            if text is not None and s not in text:
+            if text is not None and needs_care(case, s):
                 res.nontrivial += 1
                 if len(s) > 1:
                     res.sample({'position': pos, 'string': s, 'text': text}, 1)
